@@ -31,7 +31,7 @@ def gen(ctx):
         yield dict(kind="rev", hist=hist, prev=prev, R=rng.randrange(256), T=rng.randint(1, 8), form=form,
                    dtype=rng.choice(["int32", "int32", "int64", "uint8", "int8", "uint16", "int16"]),
                    scribble=int(form in ("list", "array") and rng.random() < 0.4),
-                   split=rng.choice([0, 0, 1, 2, 3]))
+                   split=rng.choice([0, 0, 1, 2, 3]), twin=int(form in ("list", "array") and rng.random() < 0.2))
 
 
 def line(c):
@@ -66,6 +66,13 @@ def run(c):
     init_snapshot = [int(x) for x in init]
     ca_snapshot = ca.tobytes()
     try:
+        if c.get("twin"):
+            # an independent copy.deepcopy of the rule, taken before any use; the original drives an evolution
+            # first, then the copy drives the one that is checked: the copy carries its own s(t-1)
+            import copy
+            spare = copy.deepcopy(rule)
+            cpl.evolve(np.array(c["hist"], dtype=dt), timesteps=max(2, c["T"]), apply_rule=rule, r=1)
+            rule = spare
         if c.get("split") and c["T"] >= 3:
             # the evolution is continued with the SAME rule object (it carries s(t-1)): same result as in one go
             T1 = 2 + (c["split"] % (c["T"] - 2 + 1)) if c["T"] > 2 else 2
